@@ -88,6 +88,15 @@ PROP = dict(
         "scalar-multiplication, batch, MultiExp/Fold, codec (RawBytes/SetBytes, Marshal/Unmarshal/Bytes, Encoder/Decoder where they exist), "
         "hash-to-curve, Pedersen-hash (stark-curve), ECDSA (Verify, Sign, HashToInt, key/signature codecs, SignForRecover/RecoverFrom) entry "
         "point and the fp/fr conversions, under all the oracles and all the suites (sequential, concurrent, -race, -race purego, first use)",
+        "decoder-like entry points (point SetBytes/Unmarshal and Decoder.Decode over a bytes.Reader on the caller's buffer, compressed and raw, "
+        "G1/G2, slices of points; GT.SetBytes; field SetBytes/SetBytesCanonical/UnmarshalJSON/SetString and Vector.UnmarshalBinary/ReadFrom; "
+        "Edwards points; EdDSA/ECDSA keys and signatures; kzg and Pedersen keys and proofs read from a caller-held buffer) are fed from a shared "
+        "pool of INPUT BUFFERS derived from valid encodings by mutation: leading element = p, > p, trailing element = p, all ones, all zero, each "
+        "of the 8 values of the three metadata bits, infinity encodings with dirt, neighbours of X / damaged tails (no square root, off the curve), "
+        "on the curve but outside the subgroup (obtained by decoding without the subgroup check), truncated by one byte and by half, one byte too "
+        "long, empty. The buffers are shared arguments: bytes identical after every call whether it fails or not, same verdict and value on "
+        "repetition and for concurrent callers. Which verdict is right is C07's question, not asked here; length prefixes are never mutated "
+        "(a huge prefix is allocated as told, DESIGN 11)",
         "goroutine scheduling is the only input not controlled by the rapid seed; a race needing an interleaving the runtime does not "
         "produce under the varied g / GOMAXPROCS / yields / -race instrumentation can be missed; timing is never used as a signal",
         "shared inputs are a deterministic function of VERIF_SEED (SHA-256 counter stream); ECDSA signatures are produced once with the "
@@ -101,7 +110,10 @@ PROP = dict(
         "the portable Go kernels are instrumented (small fields + misc in full, bn254 reduced in quick; all four curves reduced in thorough)",
         "every entry point is also exercised deterministically (sweep): 3 interleaved sequential calls and 4 concurrent goroutines x 2 calls",
     ],
-    mandatory_all=["scribble_returned", "pool_interleave", "mode:pool", "g=2", "g=3", "g=8", "g=64", "P=1", "P=2", "P=3", "P=8", "P=16", "k=2", "k=5", "mode:same", "mode:pair", "mode:mix"],
+    mandatory_all=["decode_pool"] + ["decode:" + c for c in (
+        "valid", "x_eq_p", "x_gt_p", "last_eq_p", "all_ones", "all_zero", "inf_dirty", "off_curve", "not_in_subgroup",
+        "trunc_1", "trunc_half", "long_1", "empty", "flag_0", "flag_1", "flag_2", "flag_3", "flag_4", "flag_5", "flag_6", "flag_7")] + [
+        "scribble_returned", "pool_interleave", "mode:pool", "g=2", "g=3", "g=8", "g=64", "P=1", "P=2", "P=3", "P=8", "P=16", "k=2", "k=5", "mode:same", "mode:pair", "mode:mix"],
     jobs=[
         # lazily initialised Edwards parameters: every point method cold vs warm, one fresh process per method (shared with C02)
         dict(name="coldstart-edwards", pkg="c02/uninit", run="^TestC02_ColdStart$", rapid=False),
